@@ -17,10 +17,10 @@ RC.append(("np.make_diagonal allocates a float array, so complex input loses its
            [("C09", "make_diagonal", "rev", "wrong-shape", "arg_cplx:complex"), ("C09", "make_diagonal", "fwd", "wrong-shape", "arg_cplx:complex"),
             ("C09", "diagonal", "rev", "wrong-shape", "make_diagonal_supported:True,arg_cplx:complex")]))
 RC.append(("np.diagonal(axis1=-1, axis2=-2) with unequal last dimensions (see C01 entry)", [("C09", "diagonal", "rev", "wrong-shape", "make_diagonal_supported:True,square:False")]))
-RC.append(("np.kron beyond 2-D (see C01 entry)", [("C09", "kron", "rev", "wrong-value", "max_rank:~[3-9]")]))
+RC.append(("np.kron beyond 2-D (see C01 entry)", [("C09", "kron", "rev", "wrong-value", "ranks:~[0-9].[3-9]")]))
 RC.append(("np.linalg.norm of a complex array: the reverse rule returns the conjugate of the documented gradient and the forward rule a complex tangent for a real output",
            [("C09", "norm", "rev", "wrong-value", "arg_cplx:complex"), ("C09", "norm", "fwd", "wrong-shape", "arg_cplx:complex"),
-            ("C09", "norm", "rev", "wrong-value", "ord:inf"), ("C09", "norm", "fwd", "wrong-value", "ord:inf")]))
+            ("C09", "norm", "rev", "wrong-value", "ord:inf,matrix_norm:False,keepdims:None"), ("C09", "norm", "fwd", "wrong-value", "ord:inf,matrix_norm:False,keepdims:None")]))
 RC.append(("np.linalg.pinv of a complex matrix: the rule uses plain transposes where conjugate transposes are needed", [("C09", "pinv", "rev", "wrong-value", "arg_cplx:complex")]))
 RC.append(("np.linalg.slogdet of a complex matrix: the cotangent of the (complex, non-constant) sign output is ignored", [("C09", "slogdet", "rev", "wrong-value", "arg_cplx:complex,use:~(\\[0\\]|tuple)")]))
 RC.append(("np.linalg.solve with broadcasting batch dimensions (see C01 entry), complex operands",
@@ -35,7 +35,7 @@ RC.append(("vstack/hstack/column_stack/dstack of a real traced array with a comp
 RC.append(("np.select of 0-d choices with mixed real/complex members: the re-implementation rebuilds the result from a real-typed list and loses the imaginary part",
            [("C09", "select", "rev", "wrong-shape", "rank:0,ops_cplx:~rc.*"), ("C09", "select", "fwd", "wrong-shape", "rank:0,ops_cplx:~rc.*")]))
 RC.append(("np.kron beyond 2-D / np.linalg.norm(ord=inf): wrong first-order rules (see C01) also give a wrong Gauss-Newton Hessian",
-           [("C07", "kron", "*", "gauss-newton-hessian-wrong", "max_rank:~[3-9]"), ("C07", "norm", "*", "gauss-newton-hessian-wrong", "ord:inf")]))
+           [("C07", "kron", "*", "gauss-newton-hessian-wrong", "ranks:~[0-9].[3-9]"), ("C07", "norm", "*", "gauss-newton-hessian-wrong", "ord:inf,matrix_norm:False,keepdims:None")]))
 RC.append(("np.linalg.eigh: the rule skips its eigenvector term when the eigenvector cotangent is zero-VALUED (`if anp.any(vg)`), even when that cotangent is a traced quantity; "
            "second derivatives of a function that depends on eigenvectors are wrong wherever its first-order eigenvector cotangent vanishes (zero-residual least squares: Hessian 0 instead of J^T J)",
            [("C07", "eigh", "*", "gauss-newton-hessian-wrong", "observable:~(fun|proj)")]))
